@@ -34,3 +34,37 @@ package taskfile
 //@   site (*Reader).include#1 ghost recFailed := result != nil
 //@   ensures recFailed ==> result != nil                                                                               [C08]
 //@   ensures locFailed && !include.Optional ==> result != nil                                                          [C08]
+
+// ---- C20: remote Taskfiles ---------------------------------------------------------------------------------
+// dl: the bytes just downloaded; dlFailed: the download failed; promptOKd: the trust prompt was answered yes;
+// cachedSum: the checksum stored for this remote file.
+//@ ghost var dlFailed bool scratch
+//@ ghost var promptOKd bool scratch
+//@ ghost var cachedSum string scratch
+
+//@ func (*CacheNode).ChecksumPrompt
+//@   site (*CacheNode).ReadChecksum#1 ghost cachedSum := result
+//@   ensures result == "" ==> cachedSum == checksum       -- no prompt only for the checksum approved last time      [C20]
+//@   ensures cachedSum == "" || cachedSum != checksum ==> result != ""                                               [C20]
+
+//@ func (*Reader).readRemoteNodeContent
+//@   init dlFailed := false
+//@   init promptOKd := false
+//@   site (RemoteNode).ReadContext#1 ghost dlFailed := result.1 != nil
+//@   site checksum#1 requires arg0 == downloadedBytes        -- the checksum is that of the bytes that will be run   [C20]
+//@   site (*CacheNode).ChecksumPrompt#1 requires arg1 == checksum                                                    [C20]
+//@   site (*Reader).readRemoteNodeContent$1#1 ghost promptOKd := result == nil
+//@   site (*CacheNode).WriteChecksum#1 requires (prompt == "" || promptOKd) && arg1 == checksum                      [C20]
+//@   site (*CacheNode).WriteTimestamp#1 requires prompt == "" || promptOKd                                           [C20]
+//@   site (*CacheNode).Write#1 requires (prompt == "" || promptOKd) && arg1 == downloadedBytes                       [C20]
+//@   ensures result.1 == nil && !dlFailed && downloadedBytes != nil ==> prompt == "" || promptOKd                    [C20]
+//@   ensures dlFailed && cacheFound ==> result.1 == nil && result.0 == cachedBytes   -- the cache keeps tasks runnable  [C20]
+
+// plain http is refused unless --insecure, for every kind of remote node
+//@ func NewHTTPNode
+//@   ensures result.1 == nil ==> url.Scheme != "http" || insecure                                                    [C20]
+//@ func NewGitNode
+//@   ensures result.1 == nil ==> u.Scheme != "http" || insecure                                                      [C20]
+//@ func NewNode
+//@   site NewGitNode#1 requires arg2 == insecure                                                                     [C20]
+//@   site NewHTTPNode#1 requires arg2 == insecure                                                                    [C20]
